@@ -160,6 +160,8 @@ v("C09", "b4-empty-header-returns-empty", "break", "helpers.go", "\tif len(heade
 v("C09", "b5-pooled-map-not-cleared", "break", "helpers.go", "\t\t\t\tfor k := range params {\n\t\t\t\t\tdelete(params, k)\n\t\t\t\t}\n", "", "pooled-map-cleared", "stale parameters take part in matching")
 v("C09", "b6-return-spec-not-offer", "break", "helpers.go", "\t\t\t\tif acceptedType.params != nil {\n\t\t\t\t\theaderParamPool.Put(acceptedType.params)\n\t\t\t\t}\n\t\t\t\treturn offer", "\t\t\t\tif acceptedType.params != nil {\n\t\t\t\t\theaderParamPool.Put(acceptedType.params)\n\t\t\t\t}\n\t\t\t\treturn acceptedType.spec", "getOffer:return", "returns the range text instead of the offer")
 v("C09", "n1-reordered-disjuncts", "benign", "helpers.go", "\t\t\tif at[i].quality < at[mid].quality ||\n\t\t\t\t(at[i].quality == at[mid].quality && at[i].specificity < at[mid].specificity) ||", "\t\t\tif (at[i].quality == at[mid].quality && at[i].specificity < at[mid].specificity) ||\n\t\t\t\tat[i].quality < at[mid].quality ||", why="disjuncts reordered: same relation")
+v("C09", "n2-clear-builtin", "benign", "helpers.go", "\t\t\t\tfor k := range params {\n\t\t\t\t\tdelete(params, k)\n\t\t\t\t}\n", "\t\t\t\tclear(params)\n", why="the clear builtin empties the pooled map just as the delete loop does")
+v("C05", "n2-clear-builtin", "benign", "helpers.go", "\t\t\t\tfor k := range params {\n\t\t\t\t\tdelete(params, k)\n\t\t\t\t}\n", "\t\t\t\tclear(params)\n", why="the clear builtin empties the pooled map just as the delete loop does")
 
 # ---------------------------------------------------------------- C10
 v("C10", "b1-host-ungated", "break", "ctx.go", "\tif c.IsProxyTrusted() {\n\t\tif host := c.Get(HeaderXForwardedHost); len(host) > 0 {", "\tif c.IsProxyTrusted() || c.app.config.ProxyHeader != \"\" {\n\t\tif host := c.Get(HeaderXForwardedHost); len(host) > 0 {", "Host:X-Forwarded-Host", "forwarded host read without trust")
